@@ -102,7 +102,7 @@ func containerInfoFromPushedItem(instr scparser.PushedItem) (containerrpc.Contai
 	}
 
 	attrs := fields[4].List
-	if attrs == nil {
+	if attrs == nil && !fields[4].IsNull() { // client sends no attributes as null
 		return res, event.WrapInvalidArgError(4, "Attributes", errors.New("not a list"))
 	}
 	res.Attributes = make([]*containerrpc.ContainerAttribute, len(attrs))
